@@ -62,7 +62,7 @@ def render(v, root=None, loose=False, depth=0):
     if isinstance(v, str):
         s = v
         if root:
-            s = s.replace(root, "<ROOT>")
+            s = s.replace(root, "<ROOT>").replace(root.lstrip("/"), "<ROOT>")
         return ["str", s]
     if isinstance(v, np.ndarray):
         return ["nd", str(v.dtype), list(v.shape),
@@ -168,7 +168,7 @@ def render_program(p, root=None, loose=False):
 def normalise_message(msg, root=None):
     s = str(msg)
     if root:
-        s = s.replace(root, "<ROOT>")
+        s = s.replace(root, "<ROOT>").replace(root.lstrip("/"), "<ROOT>")
     return _ADDR.sub("0x?", s)
 
 
